@@ -26,13 +26,13 @@ import (
 
 // C06Case is one (program kind, argument, input) record for the worker.
 type C06Case struct {
-	Kind  int    `json:"kind"` // 0 traverse, 1 navigate, 2 Decoder.Decode, 3 Unmarshal, 4 Decoder.DecodeTo
+	Kind  int    `json:"kind"` // 0 traverse, 1 navigate, 2 Decoder.Decode, 3 Unmarshal, 4 Decoder.DecodeTo, 5 traverse with a catalog
 	Arg   []byte `json:"arg,omitempty"`
 	Input []byte `json:"input"`
 	Src   string `json:"src,omitempty"`
 }
 
-var c06Kinds = []string{"traverse", "navigate", "decode", "unmarshal", "decode-to"}
+var c06Kinds = []string{"traverse", "navigate", "decode", "unmarshal", "decode-to", "traverse-with-catalog"}
 
 type c06Reply struct {
 	Status string `json:"st"`
@@ -564,7 +564,7 @@ func c06Input(t *rapid.T) ([]byte, string) {
 
 func genC06(t *rapid.T) C06Case {
 	in, src := c06Input(t)
-	c := C06Case{Input: in, Src: src, Kind: gen.Intn(t, 5)}
+	c := C06Case{Input: in, Src: src, Kind: gen.Intn(t, 6)}
 	switch c.Kind {
 	case 1:
 		n := gen.Range(t, 1, 60)
@@ -636,12 +636,12 @@ func TestC06(t *testing.T) {
 						continue
 					}
 					in := append(append(append([]byte{}, refbin.IVM...), wrap...), tok...)
-					for k := 0; k < 5; k++ {
+					for k := 0; k < 6; k++ {
 						c := C06Case{Kind: k, Input: in, Src: "extreme-fields.binary"}
 						if k == 1 {
 							c.Arg = []byte{0, 21, 5, 0, 21, 0, 7, 0, 21}
 						}
-						if k >= 3 {
+						if k == 3 || k == 4 {
 							c.Arg = []byte{17}
 						}
 						batch = append(batch, c)
@@ -653,13 +653,13 @@ func TestC06(t *testing.T) {
 				if idx%nshards != shard {
 					continue
 				}
-				for k := 0; k < 5; k++ {
+				for k := 0; k < 6; k++ {
 					for _, tg := range []byte{17, 8, 1, 22} {
 						c := C06Case{Kind: k, Input: []byte(s), Src: "extreme-fields.text"}
 						if k == 1 {
 							c.Arg = []byte{0, 21, 5, 0, 21, 0, 7, 0, 21}
 						}
-						if k >= 3 {
+						if k == 3 || k == 4 {
 							c.Arg = []byte{tg}
 						} else if tg != 17 {
 							continue
